@@ -10,3 +10,7 @@ Open Scope string_scope.
 Theorem terminal_keeps_a_spare_row : gen_terminal_height_adjust = (-1)%Z.
 Proof. reflexivity. Qed.
 
+(* an output that is not a terminal has no height: the width (requested, or 80) stands in for it, so a frame of fewer rows
+   than columns is never clipped there (assumption of C05 and C04 about non-terminal outputs) *)
+Theorem nonterminal_height_is_the_width : gen_nonterminal_height = "width".
+Proof. reflexivity. Qed.
